@@ -15,20 +15,20 @@ plan('C02',
          # ---- stratum A: must be completely clean
          Job(H, 'map_small', 'asan', quick=2068, thorough=7828, shards=(8, 16)),      # 2068 = all insertion orders of <= 4 of 6 keys x 4 map types
          Job(H, 'map_small', 'plain', quick=7828, thorough=7828, shards=(8, 16)),     # 7828 = all orders of <= 6 of 6 keys x 4 map types
-         Job(H, 'map_hist', 'asan', quick=1500, thorough=60000, shards=(8, 16)),
-         Job(H, 'map_hist', 'plain', quick=2500, thorough=120000, shards=(6, 16)),
-         Job(H, 'hashmap_hist', 'asan', quick=1800, thorough=70000, shards=(10, 16)),
-         Job(H, 'hashmap_hist', 'plain', quick=3000, thorough=140000, shards=(8, 16)),
-         Job(H, 'eq', 'asan', quick=1500, thorough=40000, shards=(6, 16)),
-         Job(H, 'eq', 'plain', quick=2000, thorough=60000, shards=(4, 16)),
-         Job(H, 'set_ops', 'asan', quick=1200, thorough=40000, shards=(8, 16)),
-         Job(H, 'set_ops', 'plain', quick=2000, thorough=60000, shards=(4, 16)),
+         Job(H, 'map_hist', 'asan', quick=1500, thorough=30000, shards=(8, 16)),
+         Job(H, 'map_hist', 'plain', quick=2500, thorough=50000, shards=(6, 16)),
+         Job(H, 'hashmap_hist', 'asan', quick=1400, thorough=28000, shards=(12, 16)),
+         Job(H, 'hashmap_hist', 'plain', quick=2400, thorough=48000, shards=(8, 16)),
+         Job(H, 'eq', 'asan', quick=1500, thorough=30000, shards=(4, 16)),
+         Job(H, 'eq', 'plain', quick=2000, thorough=40000, shards=(2, 16)),
+         Job(H, 'set_ops', 'asan', quick=900, thorough=18000, shards=(8, 16)),
+         Job(H, 'set_ops', 'plain', quick=2000, thorough=40000, shards=(4, 16)),
          # ---- stratum B: histories containing the two defect patterns found by this check (silent once both are repaired)
-         Job(H, 'hashmap_remove_chain_head', 'asan', quick=900, thorough=40000, shards=(6, 16), params=dict(headok=1)),
-         Job(H, 'hashmap_remove_chain_head', 'plain', quick=1200, thorough=60000, shards=(4, 16), params=dict(headok=1)),
-         Job(H, 'eq_order', 'asan', quick=1000, thorough=30000, shards=(6, 16)),
-         Job(H, 'eq_order', 'plain', quick=1500, thorough=50000, shards=(4, 16)),
-         Job(H, 'eq_order', 'asan', quick=500, thorough=15000, shards=(4, 16), params=dict(headok=1), tag='c02.eq_order_headremove'),
+         Job(H, 'hashmap_remove_chain_head', 'asan', quick=700, thorough=14000, shards=(6, 16), params=dict(headok=1)),
+         Job(H, 'hashmap_remove_chain_head', 'plain', quick=1200, thorough=24000, shards=(4, 16), params=dict(headok=1)),
+         Job(H, 'eq_order', 'asan', quick=1000, thorough=20000, shards=(4, 16)),
+         Job(H, 'eq_order', 'plain', quick=1500, thorough=30000, shards=(2, 16)),
+         Job(H, 'eq_order', 'asan', quick=500, thorough=10000, shards=(2, 16), params=dict(headok=1), tag='c02.eq_order_headremove'),
      ],
      exhaustive={'quick': True, 'thorough': True},
      assumptions=COMMON_ASSUME + [
